@@ -9,6 +9,7 @@ the same tree, tables and program as the original.
 -/
 import RegexVerif.Lemmas.Options
 import RegexVerif.Generated.OptionReaders
+import RegexVerif.Model.Parser
 
 namespace RegexVerif.Props.C18
 open RegexVerif.Options
@@ -116,5 +117,39 @@ theorem regexp_options_runtime_readers :
     (Generated.optionReaders.filter (fun u => u.pkg = "regexp2")).all
       (fun u => u.kind = "pass" ∨ (u.kind = "mask" ∧ u.mask.all (fun b => ["RightToLeft", "ECMAScript", "RE2"].contains b))) = true := by
   decide
+
+/-! ### the real parser model (`Model/Parser.lean`, tied to `syntax/parser.go` by leg Pr)
+
+FULL STATEMENT wanted (not proved; the index-based model needs a shift lemma for every scanner —
+`design.d/C10-parser.md`): for every pattern `p` and compile options `opts`, with `O ⊆ {i,m,n,s,x}`,
+
+    Parser.parse {pat := "(?O)" ++ p, opts := opts, …}  and  Parser.parse {pat := p, opts := opts ∪ O, …}
+
+both fail with the same `ErrorCode` or yield trees with the same tables that differ only in the option
+word of the three nodes created before the prefix is read (root Capture, its Alternate and its
+Concatenate).  Leg O of this property checks it on the Go side (tree + table + program equality), leg Pr
+ties the Lean parser to the Go parser on the same generators.  What is proved below is the step
+the statement rests on: how the real `scanOptions` reads the prefix. -/
+
+/-- the letters of `(?imnsx` for an option set, in the order `i m n s x` -/
+def onText (O : Opts) : List Nat :=
+  (if O.i then [105] else []) ++ (if O.m then [109] else []) ++ (if O.n then [110] else []) ++
+  (if O.s then [115] else []) ++ (if O.x then [120] else [])
+
+/-- **C18 on the real parser model, partial (`scanOptions` only).**  Reading the text of `(?O)` after
+    its `(?`, the parser's `scanOptions` (`Parser.optionsGo`, the loop of `syntax/parser.go`'s
+    `scanOptions`) switches on exactly the flags of `O` in whatever option word `o` is in force, leaves
+    the other seven bits (RightToLeft, ECMAScript, RE2, Unicode and the flags not in `O`) alone, and
+    stops in front of the closing parenthesis having consumed exactly the letters. -/
+theorem scanOptions_prefix_partial (O : Opts) (o : Parser.Opts) (rest : List Nat) :
+    Parser.optionsGo (onText O ++ 41 :: rest) false o 0 =
+      ({ o with i := o.i || O.i, m := o.m || O.m, n := o.n || O.n, s := o.s || O.s, x := o.x || O.x },
+       (onText O).length) := by
+  obtain ⟨i, m, n, s, x⟩ := O
+  cases i <;> cases m <;> cases n <;> cases s <;> cases x <;>
+    simp [onText, Parser.optionsGo, Parser.setLetter]
+
+example : Parser.optionsGo ([105, 120] ++ 41 :: [97]) false { m := true, re2 := true } 0
+    = ({ i := true, m := true, x := true, re2 := true }, 2) := by decide
 
 end RegexVerif.Props.C18
